@@ -143,27 +143,28 @@ def run(ctx):
                 ctx.add('LINKPAIR', f, 'pairing', 'ok', '%d child-link and %d parent-link writes are paired%s' % (len(C), len(P), ' (some completed by the callers)' if (pc or pp) else ''), PROPS, line,
                         {'pending_for_callers': [str(x) for x in sorted(pc | pp, key=str)]})
         # ---------------- NILSTATE ----------------
-        linkers, unlinkers, other = [], [], []
-        for f in fns:
-            for st in f.body.stores:
-                acc = prog.accessor_call(strip(st.root))
-                fl = st.fields()
-                if acc is None or len(fl) != 1 or fl[0] not in LINKS:
-                    continue
-                if prog.is_nil_index(st.value):
-                    (linkers if fl[0] in ('left', 'right') else other).append((f, st))
-                # unlink: child link of the sentinel's parent set to EMPTY_REF
-                if prog.is_empty_ref(st.value) and fl[0] in ('left', 'right'):
-                    ats = origins(prog, f, acc[2])
-                    if any(a[0] == 'link' and a[2] == 'parent' and hasattr(a[1], 'kind') and prog.is_nil_index(a[1]) for a in ats):
-                        unlinkers.append((f, st))
-        lf = sorted({f.name for f, _ in linkers})
-        uf = sorted({f.name for f, _ in unlinkers})
+        origin_link, origin_unlink, other = set(), set(), []
         problems = []
-        if len(lf) != 1:
-            problems.append('the sentinel is linked as a child by %s (expected exactly one function)' % lf)
-        if len(uf) != 1:
-            problems.append('the sentinel is unlinked by %s (expected exactly one function)' % uf)
+        for f in fns:
+            ev = nil_events(prog, f)
+            for (kind, site, origin) in ev['sites']:
+                if origin:
+                    (origin_link if kind == 'link' else origin_unlink).add(f.name)
+            for (f2, st) in ev['bad']:
+                other.append((f2, st))
+            callers = [c for _, c in prog.callers(f) if c.self_adt == tree and not c.is_closure]
+            is_entry = bool(f.trait_item) or not callers
+            if is_entry:
+                for (kind, site) in ev['unmatched']:
+                    if kind == 'link':
+                        problems.append('in %s the sentinel is linked but not unlinked on every path to the return' % f.name)
+                    else:
+                        problems.append('in %s the sentinel is unlinked without having been linked' % f.name)
+        lf, uf = sorted(origin_link), sorted(origin_unlink)
+        if not lf:
+            problems.append('the sentinel is linked as a child by [] (no site found: the removal\'s black-leaf case is not recognised)')
+        if not uf:
+            problems.append('the sentinel is unlinked by [] (no site writes EMPTY_REF into the child link of the sentinel\'s parent)')
         if other:
             problems.append('NIL_INDEX is stored into a parent link in %s' % sorted({f.name for f, _ in other}))
         # roots / releases never NIL
@@ -176,24 +177,10 @@ def run(ctx):
                     ats = origins(prog, f, c.args[1])
                     if any(a == ('const', 'NIL_INDEX') for a in ats):
                         problems.append('the sentinel slot can be released in %s' % f.name)
-        # in the removal: unlink post-dominates link
-        if len(lf) == 1 and len(uf) == 1:
-            lfn = linkers[0][0]
-            ufn = unlinkers[0][0]
-            for f in fns:
-                lc = [c for c in f.body.calls if prog.resolve(c) is lfn]
-                uc = [c for c in f.body.calls if prog.resolve(c) is ufn]
-                for c in lc:
-                    ok = any(f.body.cfg.postdominates(u.point[0], c.point[0]) and u.point > c.point for u in uc)
-                    if not ok:
-                        problems.append('in %s the sentinel is linked but not unlinked on every path to the return' % f.name)
-                    # between link and unlink only the repair may run; the sentinel's node must have been prepared
-                for u in uc:
-                    if not any(f.body.cfg.dominates(c.point[0], u.point[0]) for c in lc):
-                        problems.append('in %s the sentinel is unlinked without having been linked' % f.name)
+        problems = list(dict.fromkeys(problems))
         tfn = [f for f in fns if f.name == 'new' or f.body.locals[0]['ty'].split('<')[0] == tree]
         ctx.add('NILSTATE', tfn[0] if tfn else None, 'sentinel(%s)' % tree.split('::')[0], 'violation' if problems else 'ok',
-                '; '.join(problems[:3]) if problems else 'sentinel linked by %s and unlinked by %s in strict pairs; never released, rooted or stored as a parent' % (lf[0], uf[0]),
+                '; '.join(problems[:3]) if problems else 'sentinel linked (in %s) and unlinked (in %s) in strict pairs on every path; never released, rooted or stored as a parent' % ('/'.join(lf), '/'.join(uf)),
                 PROPS + ['C11'], tfn[0].line if tfn else 0)
         # ---------------- COLOR ----------------
         if r:
@@ -222,6 +209,111 @@ def run(ctx):
     ctx.stat('LINKPAIR', functions=n_pair)
     if n_pair < 15:
         ctx.anchor_missing('LINKPAIR', 'functions that write links', PROPS, n_pair, 15)
+
+
+def is_nil_parent(prog, fn, v):
+    ats = origins(prog, fn, v)
+    return bool(ats) and all(a[0] == 'link' and a[2] == 'parent' and hasattr(a[1], 'kind') and prog.is_nil_index(a[1]) for a in ats)
+
+
+def nil_events(prog, fn, _stack=None):
+    """sentinel link / unlink events of fn, through helpers.
+    link   = a child link receives NIL_INDEX;   unlink = the child link of node(NIL_INDEX).parent receives EMPTY_REF.
+    Helpers whose written value / target node are parameters are kept as templates and resolved at their call sites.
+    Within a function a link is matched by an unlink that post-dominates it, an unlink by a link that dominates it;
+    what stays unmatched is handed to the callers (the call site then is the event's site).
+    returns {'sites': [(kind, site, is_origin)], 'unmatched': [(kind, site)], 'templates': [(tv, tt)], 'bad': [...]}"""
+    key = ('nilevents', fn.path)
+    if key in prog._summ_cache:
+        return prog._summ_cache[key]
+    _stack = _stack or set()
+    empty = {'sites': [], 'unmatched': [], 'templates': [], 'bad': []}
+    if fn.path in _stack:
+        return empty
+    _stack = _stack | {fn.path}
+    b = fn.body
+    sites, templates, bad = [], [], []
+
+    def tv_of(v):
+        v = strip(v)
+        if prog.is_nil_index(v):
+            return ('const', 'NIL')
+        if prog.is_empty_ref(v):
+            return ('const', 'EMPTY')
+        if v.kind == 'param':
+            return ('param', v.args[0])
+        if v.kind == 'phi' and any(prog.is_nil_index(strip(x)) for x in v.args):
+            return ('const', 'NIL')
+        return ('other',)
+
+    def tt_of(v):
+        v = strip(v)
+        if v.kind == 'param':
+            return ('param', v.args[0])
+        if is_nil_parent(prog, fn, v):
+            return ('nilparent',)
+        return ('other',)
+
+    def resolve(tv, tt, site, origin):
+        if tv == ('const', 'NIL'):
+            sites.append(('link', site, origin))
+        elif tv == ('const', 'EMPTY'):
+            if tt == ('nilparent',):
+                sites.append(('unlink', site, origin))
+            elif tt[0] == 'param':
+                templates.append((tv, tt))
+        elif tv[0] == 'param':
+            templates.append((tv, tt))
+
+    for st in b.stores:
+        acc = prog.accessor_call(strip(st.root))
+        fl = st.fields()
+        if acc is None or len(fl) != 1 or fl[0] not in LINKS:
+            continue
+        if fl[0] == 'parent':
+            if prog.is_nil_index(st.value):
+                bad.append((fn, st))
+            continue
+        resolve(tv_of(st.value), tt_of(acc[2]), st, True)
+    for call, tgt in prog.callees(fn):
+        if call.kind != 'call' or tgt.is_closure or tgt.path in prog.accessors:
+            continue
+        ev = nil_events(prog, tgt, _stack)
+        bad += ev['bad']
+        for (kind, _site) in ev['unmatched']:
+            sites.append((kind, call, False))
+        for (tv, tt) in ev['templates']:
+            ntv, ntt = tv, tt
+            if tv[0] == 'param':
+                ntv = tv_of(call.args[tv[1] - 1]) if tv[1] - 1 < len(call.args) else ('other',)
+            if tt[0] == 'param':
+                ntt = tt_of(call.args[tt[1] - 1]) if tt[1] - 1 < len(call.args) else ('other',)
+            was_const = tv[0] == 'const' and tt[0] != 'param'
+            resolve(ntv, ntt, call, not was_const)
+    cfg = b.cfg
+
+    def after(x, y):
+        """site y comes after site x and lies on every path from x to a return"""
+        if x.point[0] == y.point[0]:
+            return y.point > x.point
+        return cfg.postdominates(y.point[0], x.point[0])
+
+    def before(x, y):
+        if x.point[0] == y.point[0]:
+            return x.point < y.point
+        return cfg.dominates(x.point[0], y.point[0])
+    links = [s for k, s, o in sites if k == 'link']
+    unlinks = [s for k, s, o in sites if k == 'unlink']
+    unmatched = []
+    for l in links:
+        if not any(after(l, u) for u in unlinks):
+            unmatched.append(('link', l))
+    for u in unlinks:
+        if not any(before(l, u) for l in links):
+            unmatched.append(('unlink', u))
+    res = {'sites': sites, 'unmatched': unmatched, 'templates': sorted(set(templates)), 'bad': bad}
+    prog._summ_cache[key] = res
+    return res
 
 
 def kstr(fn, kk):
